@@ -418,6 +418,28 @@ def run_codec_inputs(case) -> dict:
                 break
         if viol:
             break
+    if viol is None:
+        # the GetKey request stub for a security descriptor handed over as bytes / bytearray / memoryview, encoded twice (a request that
+        # is sent again must be the same request, and the caller's buffer is the caller's)
+        sd = dtyp.target_sd(offline.sid_shape(1 + k % 15, k))
+        rkid_req = rkid if k % 3 else None
+        idx = (r.randrange(-1, 500), r.randrange(-1, 32), r.randrange(-1, 32))
+        for bname, buf in _buffers(sd, r):
+            before = bytes(buf)
+            try:
+                g = dg.GetKey(buf, rkid_req, *idx)
+                first, second = bytes(g.pack()), bytes(g.pack())
+                dec = rpce.ndr64_parse_getkey_request(first)
+            except Exception as e:  # noqa: BLE001
+                viol = common.violation("C11", "getkey-request", "stub", "encode-raises", type(e).__name__, bname, f"GetKey with the SD given as {bname} ({len(sd)} bytes): {e!r}")
+                break
+            if (dec["sd"], dec["root_key_id"], dec["l0"], dec["l1"], dec["l2"]) != (sd, rkid_req, *idx) or second != first or bytes(buf) != before:
+                what = "caller-buffer-changed" if bytes(buf) != before else ("second-encoding-differs" if second != first else "independent-decode")
+                viol = common.violation("C11", "getkey-request", "stub", what, "", bname,
+                                        f"GetKey with the SD given as {bname} ({len(sd)} bytes): independent decode gives SD of {len(dec['sd'])} bytes, "
+                                        f"second encoding equal: {second == first}, caller's buffer unchanged: {bytes(buf) == before}")
+                break
+            probes["getkey_sd_len_mod8_%d" % (len(sd) % 8)] = 1
     return {"viol": viol, "digest": str(case["seed"]), "key": common.key_hash(case), "fired": {"parties": 1}, "probes": probes, "vtime_ns": 0}
 
 
@@ -447,7 +469,7 @@ class C11(common.Check):
             "identically; key identifiers in emitted blobs; 2..4 caller threads of one process encode / decode the structures at the same time "
             "(pre-empted at PRNG-chosen line events inside dpapi_ng) and every result must equal the one computed alone; a reply whose name bytes are damaged (odd length, half a surrogate pair) followed "
             "by well-formed replies in the same process; key identifiers whose names differ only in case / normalisation form decoded one after "
-            "the other; every structure (names that end in / contain U+0000 included) handed to the decoders as bytes, bytearray, read-only / writable memoryview and as a slice "
+            "the other; the GetKey stub for a security descriptor handed over as bytes / bytearray / memoryview, encoded twice; every structure (names that end in / contain U+0000 included) handed to the decoders as bytes, bytearray, read-only / writable memoryview and as a slice "
             "of a larger receive buffer. Non-trivial = every plan; distinct = distinct plan.")
     components = {"client": "real (GetKey.pack, GetKey.unpack_response, GroupKeyEnvelope.unpack, KeyIdentifier.pack, parameter/key structures)",
                   "LibDC": "real codecs in the server role (GetKey.unpack, VerificationTrailer.unpack, GroupKeyEnvelope.pack)",
